@@ -48,10 +48,17 @@ void verif_prog_layout(void)
 /* cgroup/connect4: ctx fields are given / returned as raw memory bytes (user_ip4, user_port are documented
  * "stored in network byte order").  Returns the program's verdict. */
 int verif_connect4(const unsigned char ip4[4], const unsigned char port4[4], unsigned protocol, unsigned family,
-                   unsigned type, unsigned char out_ip4[4], unsigned char out_port4[4])
+                   unsigned type, const unsigned char bound_ip4[4], unsigned char out_ip4[4], unsigned char out_port4[4])
 {
     struct bpf_sock_addr ctx;
+    static struct bpf_sock sock;          /* ctx->sk: the socket that connects; src_ip4 is the address it was bound to (0: unbound) */
     memset(&ctx, 0, sizeof ctx);
+    memset(&sock, 0, sizeof sock);
+    sock.family = family;
+    sock.type = type;
+    sock.protocol = protocol;
+    memcpy(&sock.src_ip4, bound_ip4, 4);
+    ctx.sk = &sock;
     ctx.user_family = family;
     ctx.family = family;
     ctx.type = type;
